@@ -8,7 +8,7 @@ from vf.report import Report
 from vf.common import MachineryError
 
 # (N, D, V, fraction of dataset chunks, ramp-only)
-QUICK = [(3, 1, 2, 1.0, False), (4, 1, 3, 0.08, False), (5, 1, 3, 0.012, False), (4, 2, 1, 0.15, False), (5, 1, 0, 1.0, True)]
+QUICK = [(3, 1, 2, 1.0, False), (4, 1, 3, 0.04, False), (5, 1, 3, 0.006, False), (4, 2, 1, 0.08, False), (5, 1, 0, 1.0, True)]
 THOROUGH = [(3, 1, 2, 1.0, False), (4, 1, 3, 1.0, False), (5, 1, 3, 0.25, False), (4, 2, 1, 1.0, False), (4, 2, 2, 0.02, False),
             (6, 1, 3, 0.01, False), (5, 2, 1, 0.05, False), (5, 1, 0, 1.0, True), (6, 1, 0, 1.0, True)]
 
@@ -49,6 +49,10 @@ def run(tier):
             c = r.prints[len(r.prints) // 2]
             rep.sample({"X": c["X"], "kernel": c["kn"], "max_clusters": c["kmax"], "min_leaf": c["minleaf"],
                         "leafOf": c["leafOf"], "clOf": c["clOf"], "candidates": c["queries"][0]["cands"][:4]})
+    # code -> spec: real fits validated against KauriTrace (gain = increase, pick = best, score = root + sum of gains)
+    import random
+    from vf.common import SEED
+    kauri.run_traces(rep, "C08", tier, random.Random(SEED + 8), budget=6 if tier == "quick" else 40)
     rep.extra["candidate_kinds"] = dict(kinds)
     rep.extra["STALE-BUILD_disagreements_compiled_vs_pyx"] = stale
     for kind in ("star", "dstar", "switch", "realloc"):
